@@ -109,7 +109,9 @@ class C14(core.Check):
             for k in range(rnd.randint(3, 40)):
                 w = 'w%sz' % gdocs.b33(k + 1) + rnd.choice(['', '', 'ä', '\U0001d538'])
                 d.words.append((w + 'z' if not w.endswith('z') else w, len(txt), ()))
-                txt += d.words[-1][0] + rnd.choice([' ', ' ', '\n', '. ', ' \\alpha ', ' $x$ ', ' % c\n', '\n\n', ' {} ', '\t'])
+                txt += d.words[-1][0] + rnd.choice([' ', ' ', '\n', '. ', ' \\alpha ', ' $x$ ', ' % c\n', '\n\n', ' {} ', '\t',
+                                                    # line ends for str.splitlines() only: the line count goes by '\n'
+                                                    ' \x0c ', '\u2028', ' \x85', '\x0b', '\x1c '])
             d.src = txt
         else:
             d = gdocs.random_document(rnd, size=rnd.randint(2, 7), lang=case['lang'], kinds=DOC_KINDS, max_depth=4,
@@ -138,6 +140,12 @@ class C14(core.Check):
             d.src = src_
             d.words = out
             cnt['split_words'] = len(pick)
+        if not plain_input and case['s'] % 4 == 2:
+            # form feeds etc. in place of some blanks between words (white space for LaTeX, no line ends)
+            spots = [m.start() for m in re.finditer(r'(?<=[a-z.,]) (?=w[0-9a-z])', d.src)]
+            for k in rnd.sample(spots, min(len(spots), 3)):
+                d.src = d.src[:k] + rnd.choice(['\x0c', '\x0b', '\x1c', '\x85', '\u2028']) + d.src[k + 1:]
+            cnt['docs_with_odd_line_separators'] = 1
         src = d.src if case['newline_end'] else d.src.rstrip('\n')
         lang = {'en': 'en-GB', 'de': 'de-DE', 'ru': 'ru-RU'}[case['lang']]
         plan = {'mode': 'words', 'regex': WORD, 'every': case['every']}
@@ -236,8 +244,15 @@ class C14(core.Check):
         try:
             root = ET.fromstring(xt)
         except ET.ParseError as e:
-            return dict(ok=False, nt=True, key='xml:not-well-formed', cnt=cnt, obs=None,
-                        detail=dict(src=src, xml=xt[:800], error=str(e)))
+            if re.search('[\x00-\x08\x0b\x0c\x0e-\x1f]', src):
+                # the source holds a character that XML 1.0 cannot represent (form feed ...): the XML report is
+                # not judged for such a file (well-formedness is not part of the statement), the other modes are
+                cnt['xml_not_representable'] = 1
+                root = ET.fromstring('<matches></matches>')
+                jm = []
+            else:
+                return dict(ok=False, nt=True, key='xml:not-well-formed', cnt=cnt, obs=None,
+                            detail=dict(src=src, xml=xt[:800], error=str(e)))
         errs = [e for e in root.findall('error') if e.get('msg').startswith('MSG')]
         if [e.get('msg').split(':', 1)[0] for e in errs] != [m['message'].split(':', 1)[0] for m in jm]:
             return dict(ok=False, nt=True, key='xml-vs-json:messages', cnt=cnt, obs=None, detail=dict(src=src, xml=xt[:800]))
